@@ -25,8 +25,7 @@ func (u *UnwrapFunctionPlanner) Process(ctx *shared.PlannerContext) (sql.ISelect
 	var val sql.SQLObject
 	switch u.Func {
 	case "rate":
-		val = sql.NewRawObject(fmt.Sprintf("sum(unwrap_1.value) / %f",
-			float64(u.Duration.Milliseconds())/1000))
+		val = sql.NewRawObject(fmt.Sprintf("sum(unwrap_1.value) * 1000000000 / %d", u.Duration.Nanoseconds()))
 	case "sum_over_time":
 		val = sql.NewRawObject("sum(unwrap_1.value)")
 	case "avg_over_time":
